@@ -6,7 +6,7 @@ Synthetic points go through the PUBLIC entry point `computeHomogenizationFunctio
 the call takes the cache-hit path of `_computeSingleMobility` and then the real post-process and averaging
 functions; a stand-in thermodynamics object only supplies `.phases` / `.elements`.  A few points are also
 evaluated on a shipped database (NICRAL_TDB) with the real equilibrium calculation."""
-import copy, math, warnings
+import copy, math, traceback, warnings
 import numpy as np
 import vlib
 from vlib import Result, enc_list, enc_ilist, f2b, Toks, close
@@ -146,16 +146,33 @@ def make_hp(cfg):
     return hp
 
 
+class Raised(str):
+    """name of an exception raised INSIDE the code under test (compares equal to the plain name), with the raising line"""
+    site = None
+    msg = ''
+
+
 def impl_eval(th, x, T, cfg, ht):
+    """one evaluation through the public entry point; an exception raised inside kawin is returned as `Raised`
+    (the oracle decides: documented ValueError for an unknown name, violation otherwise); an exception of the
+    harness itself propagates to the per-case guard"""
     from kawin.diffusion.HomogenizationParameters import computeHomogenizationFunction
     xx = x[0] if th.numElements == 2 else list(x)
+    hp = make_hp(cfg)
     try:
         with np.errstate(all='ignore'), warnings.catch_warnings():
             warnings.simplefilter('ignore')
-            out, _ = computeHomogenizationFunction(th, xx, T, make_hp(cfg), ht)
-        return [float(v) for v in np.atleast_1d(out)]
+            out, _ = computeHomogenizationFunction(th, xx, T, hp, ht)
     except Exception as e:      # noqa
-        return type(e).__name__
+        tb = traceback.format_exc()
+        if not vlib.in_repo_traceback(tb):
+            raise
+        r = Raised(type(e).__name__)
+        sites = [l.strip() for l in tb.splitlines() if l.strip().startswith('File "%s' % vlib.REPO)]
+        r.site = sites[-1] if sites else None
+        r.msg = str(e)[:200]
+        return r
+    return [float(v) for v in np.atleast_1d(out)]
 
 
 def record_of(ht, x, T):
@@ -360,9 +377,11 @@ def check_history(case, res, model_ans=None, th=None):
         if isinstance(out, str) or isinstance(want, str):
             if out != want:
                 if isinstance(out, str) and known_names(case, cfg):
-                    res.violate('post-%s-raises-%s-in-%s' % (mode, out, region(case)),
-                                "post-processing '%s' with database-phase names raised %s (%d stable of %d database phases)" % (mode, out, len(stable), len(db)),
-                                dict(desc, failing_cfg=k), out, want)
+                    res.violate('raises:computeHomogenizationFunction:post-%s:%s:%s' % (mode, out, region(case)),
+                                "evaluation with rule '%s', post-processing '%s' and database-phase names raised %s: %s (%d stable of %d database phases)" % (
+                                    RULES[cfg['rule']], mode, out, getattr(out, 'msg', ''), len(stable), len(db)),
+                                dict(desc, failing_cfg=k, raised_at=getattr(out, 'site', None)), str(out),
+                                [w[0] if w is not None else None for w in want] if not isinstance(want, str) else want)
                 else:
                     res.violate('post-%s-unknown-name-handling' % mode, 'a name that is not a database phase was not reported as ValueError',
                                 dict(desc, failing_cfg=k), out, want)
@@ -568,7 +587,7 @@ def rules_lines(case):
 _DB_CACHE = {}
 
 
-def shipped_cases(ctx, npoints):
+def shipped_cases(ctx, npoints, res):
     """points of the Ni-Cr (and Ni-Cr-Al) system of NICRAL_TDB with the real equilibrium calculation"""
     from kawin.thermo import GeneralThermodynamics
     from kawin.tests.datasets import NICRAL_TDB
@@ -579,9 +598,14 @@ def shipped_cases(ctx, npoints):
     for els, e in systems:
         key = tuple(els)
         if key not in _DB_CACHE:
-            with warnings.catch_warnings():
-                warnings.simplefilter('ignore')
-                _DB_CACHE[key] = GeneralThermodynamics(NICRAL_TDB, els, ['FCC_A1', 'BCC_A2'])
+            def load():
+                with warnings.catch_warnings():
+                    warnings.simplefilter('ignore')
+                    return GeneralThermodynamics(NICRAL_TDB, els, ['FCC_A1', 'BCC_A2'])
+            ok, th = vlib.guarded(res, 'GeneralThermodynamics(NICRAL_TDB)', dict(kind='shipped-load', system=els), load)
+            if not ok:
+                continue
+            _DB_CACHE[key] = th
         th = _DB_CACHE[key]
         for _ in range(npoints):
             if e == 1:
@@ -590,11 +614,16 @@ def shipped_cases(ctx, npoints):
                 a = r.uniform(0.03, 0.8); b = r.uniform(0.02, 0.95 - a)
                 x = [round(a, 3) + 0.00005, round(b, 3) + 0.00005]
             T = 1073.15
-            ht = HashTable()
-            with np.errstate(all='ignore'), warnings.catch_warnings():
-                warnings.simplefilter('ignore')
-                computeMobility(th, x[0] if e == 1 else x, T, ht)
-            names, mob, fr = record_of(ht, x, T)
+            def point():
+                ht = HashTable()
+                with np.errstate(all='ignore'), warnings.catch_warnings():
+                    warnings.simplefilter('ignore')
+                    computeMobility(th, x[0] if e == 1 else x, T, ht)
+                return (ht,) + record_of(ht, x, T)
+            ok, val = vlib.guarded(res, 'computeMobility', dict(kind='shipped-point', system=els, x=x, T=T), point)
+            if not ok:
+                continue
+            ht, names, mob, fr = val
             db = list(th.phases)
             cfgs = []
             for _ in range(r.randint(3, 5)):
@@ -619,17 +648,14 @@ def corr(ctx, n_hist=None, n_rules=None, oracle_only=False):
     hist = [gen_history_case(ctx.rng) for _ in range(N1)]
     rules = [gen_rules_case(ctx.rng) for _ in range(N2)]
     use_model = ctx.driver_ok and not oracle_only
-    ship = []
-    try:
-        ship = shipped_cases(ctx, ctx.n(4, 40))
-    except Exception as e:   # the database layer is not what this property is about; record and go on
-        res.extra['shipped_database_skipped'] = repr(e)[:300]
+    ok, ship = vlib.guarded(res, 'shipped-database-setup', dict(kind='shipped-setup'), shipped_cases, ctx, ctx.n(4, 40), res)
+    ship = ship if ok else []
     lines = [history_line(c) for c in hist] + [history_line(c) for _, c in ship]
     for c in rules:
         lines += rules_lines(c)
     model = vlib.run_driver(PROP, lines) if use_model else None
     for k, c in enumerate(hist):
-        check_history(c, res, model[k] if model else None)
+        vlib.guarded(res, 'history-case', c, check_history, c, res, model[k] if model else None)
         res.case((tuple(c['db']), tuple(c['stable']), repr(c['mob']), repr(c['fr']), repr(c['cfgs'])), len(c['stable']) >= 2)
         res.count(region(c)); res.count('fractions:' + c['fkind'])
         if len(c['stable']) < len(c['db']) or c['stable'] != c['db'][:len(c['stable'])]:
@@ -637,16 +663,19 @@ def corr(ctx, n_hist=None, n_rules=None, oracle_only=False):
         if k < 2:
             res.sample({kk: vv for kk, vv in c.items() if kk != 'perm'})
     for k, (th, c) in enumerate(ship):
-        check_history(c, res, model[N1 + k] if model else None, th=th)
+        vlib.guarded(res, 'shipped-history-case', {kk: vv for kk, vv in c.items() if not kk.startswith('_')},
+                     check_history, c, res, model[N1 + k] if model else None, th=th)
         res.case(('shipped', tuple(c['system']), tuple(c['x'])), len(c['stable']) >= 2)
         res.count('shipped-database-point'); res.count('shipped:' + region(c))
     res.traces = len(ship)
     off = N1 + len(ship)
     for k, c in enumerate(rules):
-        check_rules(c, res, model[off + 2 * k] if model else None, model[off + 2 * k + 1] if model else None)
+        vlib.guarded(res, 'averaging-functions', c, check_rules, c, res,
+                     model[off + 2 * k] if model else None, model[off + 2 * k + 1] if model else None)
         res.case(('rules', repr(c['mob']), repr(c['fr']), c['req']), len(c['mob']) >= 2)
         if k < 1:
             res.sample(c)
+    vlib.finish_guard(res)
     return res
 
 
@@ -658,25 +687,38 @@ def search(ctx, broken):
 def replay(ctx, entry):
     vlib.use_repo()
     c = entry['violation']['case']
-    c = {k: v for k, v in c.items() if k not in ('failing_cfg', 'order')}
+    if 'case' in c and isinstance(c['case'], dict) and 'kind' in c['case']:
+        c = c['case']            # a case recorded by vlib.guarded (the implementation raised)
+    c = {k: v for k, v in c.items() if k not in ('failing_cfg', 'order', 'raised_at')}
     res = Result()
-    if c.get('kind') == 'rules':
-        check_rules(c, res)
-    elif c.get('kind') == 'history':
-        c['cfgs'] = [dict(rule=g['rule'], n=g['n'], post=(g['post'][0], g['post'][1])) for g in c['cfgs']]
-        check_history(c, res)
-    elif c.get('kind') == 'shipped':
+
+    def shipped(c, with_cfgs):
         from kawin.thermo import GeneralThermodynamics
         from kawin.tests.datasets import NICRAL_TDB
         from kawin.diffusion.DiffusionParameters import HashTable, computeMobility
         th = GeneralThermodynamics(NICRAL_TDB, c['system'], ['FCC_A1', 'BCC_A2'])
+        if 'x' not in c:
+            return
         ht = HashTable()
         computeMobility(th, c['x'][0] if len(c['x']) == 1 else c['x'], c['T'], ht)
+        if with_cfgs:
+            c['_ht'] = ht
+            check_history(c, res, th=th)
+
+    if 'cfgs' in c:
         c['cfgs'] = [dict(rule=g['rule'], n=g['n'], post=(g['post'][0], g['post'][1])) for g in c['cfgs']]
-        c['_ht'] = ht
-        check_history(c, res, th=th)
+    kind = c.get('kind')
+    if kind == 'rules':
+        vlib.guarded(res, 'averaging-functions', c, check_rules, c, res)
+    elif kind == 'history':
+        vlib.guarded(res, 'history-case', c, check_history, c, res)
+    elif kind == 'shipped':
+        vlib.guarded(res, 'shipped-history-case', {k: v for k, v in c.items()}, shipped, c, True)
+    elif kind in ('shipped-point', 'shipped-load'):
+        vlib.guarded(res, 'computeMobility', c, shipped, c, False)
     else:
         print('   unknown case kind'); return None
+    vlib.finish_guard(res)
     for v in res.violations:
         print('  ', v['key'], '|', v['what'], '| observed', v['observed'], '| required', v['required'])
     return not res.violations
